@@ -1,7 +1,7 @@
 (* C12 — Snapshot requests track snapshot age and versions since, for every config.
    Statements only; proofs live in theories/proofs.  cfg_ok = both targets non-negative and
    inside their integer types (i64 / u32). *)
-From TSS Require Import Urgency proofs.UrgencyArith Seq proofs.Inv proofs.Agree proofs.Hist proofs.Snapshot proofs.Counter.
+From TSS Require Import Urgency proofs.UrgencyArith Seq Http proofs.Inv proofs.Agree proofs.Hist proofs.Snapshot proofs.Counter proofs.HttpProps proofs.HttpReach proofs.HttpLib proofs.HttpLib2.
 From Coq Require Import ZArith.
 Open Scope Z_scope.
 
@@ -75,3 +75,18 @@ Theorem C12_from_pre_request_record : forall k cfg h c p d E u,
   responses k cfg (h ++ [(OAddVersion c p d, E)]) = responses k cfg h ++ [RAdded (e_fresh E) u] ->
   u = urgency_of cfg (ghost_meta c h (responses k cfg h) [] None) (e_now E).
 Proof. exact urgency_from_pre_request_record. Qed.
+
+(* as HTTP clients see it: the X-Snapshot-Request header of an accepted upload (status 200) after ANY
+   HTTP history is absent / urgency=low / urgency=high exactly as urgency_of says for the snapshot
+   record as it was before the request, recomputed from the history alone (ghost_meta over the
+   library view of the HTTP history, C14): high for a client without a snapshot *)
+Theorem C12_http_urgency_header : forall k cfg allow h c p cs E r,
+  cfg_ok cfg -> client_id_header allow (COk c) = inl c -> body_refused cs = false ->
+  let av := mkReq MPost (PAddVersion (IdOk p)) (COk c) CTHistory cs in
+  horacle_ok (h ++ [(av, E)]) ->
+  hresponses k cfg allow (h ++ [(av, E)]) = hresponses k cfg allow h ++ [r] -> rs_status r = 200%N ->
+  rs_snapshot_req r =
+  match urgency_of cfg (ghost_meta c (lib_of allow h) (responses k cfg (lib_of allow h)) [] None) (e_now E) with
+  | Some ULow => Some ULow | Some UHigh => Some UHigh | _ => None
+  end.
+Proof. exact http_urgency_header. Qed.
